@@ -98,8 +98,8 @@ Proof. induction fuel as [|f IH]; simpl; intros fifo s H; [exact H|]. apply IH. 
 (* ---------- table entries are faithful to the objects they were made from ---------- *)
 Definition entry_ok (x : var) : Prop :=
   v_ty x = o_ty (hget h (v_oid x)) /\
-  v_val x = firstn (max_str c) (o_text (hget h (v_oid x))) /\
-  v_trunc x = (max_str c <? length (o_text (hget h (v_oid x))))%nat.
+  v_val x = firstn (max_str c) (otext (hget h (v_oid x))) /\
+  v_trunc x = (max_str c <? length (otext (hget h (v_oid x))))%nat.
 Definition table_ok (t : list (nat * var)) : Prop := forall v x, In (v, x) t -> entry_ok x.
 
 Lemma add_child_tbl_in t p r v x : In (v, x) (add_child_tbl t p r) ->
@@ -135,7 +135,7 @@ Proof. induction fuel as [|f IH]; simpl; intros fifo s H; [exact H|]. apply IH. 
 (* C05: string cut and truncated flag, consequence of faithfulness *)
 Lemma entry_ok_string x : entry_ok x ->
   (length (v_val x) <= max_str c)%nat /\
-  (v_trunc x = true <-> (max_str c < length (o_text (hget h (v_oid x))))%nat).
+  (v_trunc x = true <-> (max_str c < length (otext (hget h (v_oid x))))%nat).
 Proof.
   intros (_ & Hv & Ht). split.
   - rewrite Hv, firstn_length. lia.
